@@ -8,6 +8,7 @@ results complete and whether an idle worker is replaced are decided by the world
 """
 import copy
 import logging
+import os
 import math
 import pickle
 import random
@@ -96,11 +97,12 @@ def _restore_logging(st):
 class ProcState:
     """Snapshot of the process-local state a forked child would own."""
 
-    def __init__(self, np_state, py_state, log_state, globs):
+    def __init__(self, np_state, py_state, log_state, globs, environ=None):
         self.np_state = np_state
         self.py_state = py_state
         self.log_state = log_state
         self.globs = globs            # [(module, name, value)]
+        self.environ = environ        # a forked child has its own copy of the environment
 
     @classmethod
     def capture(cls, deep):
@@ -112,7 +114,7 @@ class ProcState:
                 except Exception:
                     continue
             globs.append((m, k, v))
-        return cls(np.random.get_state(), random.getstate(), _logging_state(), globs)
+        return cls(np.random.get_state(), random.getstate(), _logging_state(), globs, dict(os.environ))
 
     def install(self):
         np.random.set_state(self.np_state)
@@ -120,6 +122,13 @@ class ProcState:
         _restore_logging(self.log_state)
         for m, k, v in self.globs:
             setattr(m, k, v)
+        if self.environ is not None and dict(os.environ) != self.environ:
+            for k in list(os.environ):
+                if k not in self.environ:
+                    del os.environ[k]
+            for k, v in self.environ.items():
+                if os.environ.get(k) != v:
+                    os.environ[k] = v
 
 
 def _np_state_from_seed(seed):
